@@ -313,6 +313,8 @@ def run(ctx):
         rate = rng.choice([1, 2, 5, 10, 50]) * 1000
         burst = rng.choice([0, 1, 2, 5, 10])
         dts = [rng.choice([0, 0, 10, 50, 100, 250, 500, 1000, 3000]) for _ in range(rng.range(1, 40))]
+        if rng.chance(1, 4):   # idle long enough to refill, then a volley
+            dts = [rng.choice([0, 100])] * rng.range(0, 3) + [rng.choice([1300, 3000, 10000])] + [0] * rng.range(2, 30)
         bcases.append(f"bucket {rate} {burst} " + " ".join(map(str, dts)))
         ccases.append(f"connlim {rng.choice([0, 1, 2, 3])} " + " ".join(rng.choice(["a", "a", "r"]) for _ in range(rng.range(1, 30))))
     pcases = bcases + ccases
@@ -332,6 +334,21 @@ def run(ctx):
             rate, burst, dts = int(f[1]), max(int(f[2]), 1), [int(x) for x in f[3:]]
             if r.count("1") * 1000000 > burst * 1000000 + sum(dts) * rate + 1000:
                 ctx.violation("C14:rate-exceeded", f"bucket rate {rate / 1000}/s burst {burst} admitted {r.count('1')} events in {sum(dts)} ms", {"case": c, "impl": r})
+            else:
+                # every window: from any call on, at most burst + rate * (time since that call) are admitted (C14_bucket_window)
+                bits = [ch for ch in r if ch in "01"]
+                worst = None
+                for i in range(len(bits)):
+                    adm, span = 0, 0
+                    for j in range(i, min(len(bits), len(dts))):
+                        if j > i:
+                            span += dts[j]
+                        adm += bits[j] == "1"
+                        if adm * 1000000 > burst * 1000000 + span * rate + 1000 and worst is None:
+                            worst = (i, j, adm, span)
+                if worst:
+                    ctx.violation("C14:rate-exceeded:window", f"bucket rate {rate / 1000}/s burst {burst} admitted {worst[2]} events within {worst[3]} ms (calls {worst[0]}..{worst[1]} of the sequence)",
+                                  {"case": c, "impl": r})
         else:
             lim = int(f[1])
             inuse = 0
@@ -403,10 +420,10 @@ def run(ctx):
     blines = []
     for kind, fl, n, delay, mx in bursts:
         blines.append("burst " + json.dumps({"flags": NOLIM + fl, "kind": kind, "n": n, "delay_ms": delay, "rounds": 2, "extra": mx + 3}).encode().hex())
-    rate_specs = [(60, 3), (600, 2)] if not thorough else [(60, 3), (600, 2), (120, 5), (6000, 1)]
-    for permin, burst in rate_specs:
+    rate_specs = [(60, 3, 0), (600, 2, 0), (600, 3, 700), (1200, 5, 600)] if not thorough else [(60, 3, 0), (600, 2, 0), (120, 5, 0), (6000, 1, 0), (600, 3, 700), (1200, 5, 600), (300, 2, 1500), (3000, 10, 500)]
+    for permin, burst, idle in rate_specs:
         blines.append("burst " + json.dumps({"flags": ["--session-creates-per-min", str(permin), "--session-creates-burst", str(burst), "--max-sessions", "0"],
-                                              "kind": "rate", "n": 25, "delay_ms": 0}).encode().hex())
+                                              "kind": "rate", "n": 25, "delay_ms": 0, "idle_ms": idle}).encode().hex())
     res, errs = run_parallel(ctx, exe, "burst", blines, {"THRUSERV_BIN": srv}, workers=6)
     ctx.oblige("harness:burst", not errs and all(r is not None for r in res), "; ".join(errs)[:300])
     nb = 0
@@ -435,9 +452,9 @@ def run(ctx):
             if o.get("duplicate_code"):
                 ctx.violation("C14:duplicate-join-code", f"two live sessions share join code {o['duplicate_code']}", rep)
         else:
-            permin, burst = rate_specs[i - len(bursts)]
+            permin, burst, idle = rate_specs[i - len(bursts)]
             bound = burst + permin / 60.0 * (o.get("elapsed_ms", 0) / 1000.0) + 1
-            rep = {"kind": "rate", "per_min": permin, "burst": burst, "result": o}
+            rep = {"kind": "rate", "per_min": permin, "burst": burst, "idle_before_volley_ms": idle, "result": o}
             if o["admitted"] > bound:
                 ctx.violation("C14:rate-exceeded", f"{o['admitted']} session creations admitted in {o.get('elapsed_ms')} ms with {permin}/min burst {burst}", rep)
             if o["admitted"] < burst:
